@@ -831,9 +831,117 @@ def _check_wiring(R, F, CG):
                     bad = True
                 else:
                     n_err += 1
+        if bad or n_err < 2:
+            ok_tab, why_tab = _validate_config_rule_table(F, vc)
+            if ok_tab:
+                bad, n_err = False, 2
         R.ob(not bad and n_err >= 2, "GUARD", vc.where(), "GUARD|validate_config|auth-needs-credentials",
              "validate_config accepts auth enabled without user/password",
              sample={"rule": "GUARD validate_config", "err_paths": n_err})
+
+
+def _validate_config_rule_table(F, vc):
+    """validate_config written as a table: a literal array of `(violated, message)` pairs, the first violated one reported
+    through `rules.iter().find(|r| r.0).map_or(Ok(()), |r| Err(r.1.into()))`.  The returned value must have exactly that shape,
+    and under every configuration with authentication enabled and a credential missing some `violated` must be true
+    (decided by abstract execution up to the construction of the table)."""
+    from terms import explore_under, subterms, rvalue_origin as _rvo
+    rets = [_rvo(vc, s_["rv"], 0, frozenset(), 40) for b in vc.blocks if not b.get("cleanup") for s_ in b["stmts"]
+            if s_["k"] == "assign" and s_["lhs"]["l"] == 0 and not s_["lhs"].get("p")]
+    from terms import call_origin
+    rets += [call_origin(vc, b["term"], 0, frozenset(), 40) for b in vc.blocks if not b.get("cleanup") and b["term"]["k"] == "call"
+             and b["term"]["dest"]["l"] == 0 and not b["term"]["dest"].get("p")]
+    if len(rets) != 1:
+        return False, "more than one way to return"
+    r = rets[0]
+    if not (r[0] == "call" and r[1].split("::")[-1] == "map_or" and len(r[2]) == 3):
+        return False, "returned value is not find(..).map_or(Ok, Err)"
+    found, dflt, mapper = r[2]
+    if not (dflt[0] == "agg" and dflt[1].endswith("Result::Ok")):
+        return False, "default is not Ok"
+    from terms import closures_in_term
+    mcl = [F.fns.get(x) for x in closures_in_term(mapper)]
+    if len(mcl) != 1 or mcl[0] is None:
+        return False, "mapper closure not found"
+    mret = [_rvo(mcl[0], s_["rv"], 0, frozenset(), 40) for b in mcl[0].blocks for s_ in b["stmts"] if s_["k"] == "assign" and s_["lhs"]["l"] == 0]
+    if not mret or not all(x[0] == "agg" and x[1].endswith("Result::Err") for x in mret):
+        return False, "a found rule is not turned into Err"
+    fc = [x for x in calls_in(found) if x[1].split("::")[-1] == "find"]
+    if len(fc) != 1 or len(fc[0][2]) != 2:
+        return False, "no find over the rules"
+    pcl = [F.fns.get(x) for x in closures_in_term(fc[0][2][1])]
+    if len(pcl) != 1 or pcl[0] is None:
+        return False, "find predicate not found"
+    pret = [_rvo(pcl[0], s_["rv"], 0, frozenset(), 40) for b in pcl[0].blocks for s_ in b["stmts"] if s_["k"] == "assign" and s_["lhs"]["l"] == 0]
+    def is_first_component(t):
+        while t[0] in ("deref", "ref", "cast"):
+            t = t[1]
+        if t[0] != "field" or t[2] != ".0":
+            return False
+        b_ = t[1]
+        while b_[0] in ("deref", "ref", "cast"):
+            b_ = b_[1]
+        return b_[0] == "param"
+    if not pret or not all(is_first_component(x) for x in pret):
+        return False, "find predicate is not `|rule| rule.0`"
+    spine, t_ = set(), fc[0][2][0]
+    while True:
+        if t_[0] in ("ref", "deref", "cast"):
+            t_ = t_[1]
+        elif t_[0] == "call" and t_[2]:
+            spine.add(t_[1].split("::")[-1])
+            t_ = t_[2][0]
+        else:
+            break
+    if spine - {"iter", "into_iter", "deref", "as_slice"} or not (t_[0] == "agg" and t_[1] == "array"):
+        return False, "rules are filtered before the search"
+    # the literal array and the locals holding each rule's `violated`
+    arr_stmt = None
+    for bi, b in enumerate(vc.blocks):
+        if b.get("cleanup"):
+            continue
+        for s_ in b["stmts"]:
+            if s_["k"] == "assign" and s_["rv"]["k"] == "agg" and s_["rv"].get("agg") == "array" and len(s_["rv"]["ops"]) >= 1:
+                arr_stmt = (bi, s_)
+    if arr_stmt is None:
+        return False, "no literal array of rules"
+    firsts = []
+    for op in arr_stmt[1]["rv"]["ops"]:
+        ds = [d for d in vc.defs().get(op.get("l"), []) if d[2] == "assign" and d[3]["rv"]["k"] == "agg" and d[3]["rv"].get("agg") == "tuple"]
+        if len(ds) != 1:
+            return False, "a rule is not a literal pair"
+        firsts.append(ds[0][3]["rv"]["ops"][0])
+
+    def var_of(t):
+        x = t
+        while x[0] in ("ref", "deref", "cast"):
+            x = x[1]
+        if x[0] == "field" and x[2] == ".brc20_prog_rpc_server_user":
+            return "user"
+        if x[0] == "field" and x[2] == ".brc20_prog_rpc_server_password":
+            return "password"
+        if x[0] == "field" and x[2] == ".brc20_prog_rpc_server_enable_auth":
+            return "auth"
+        return None
+    for u in ("Some", "None"):
+        for pw in ("Some", "None"):
+            if u == "Some" and pw == "Some":
+                continue
+            env = {"user": u, "password": pw, "auth": True}
+            rr, visited = explore_under(vc, lambda t, env=env: env.get(var_of(t)), capture={arr_stmt[0]})
+            caps = [st for (b_, st) in getattr(explore_under, "captured", [])]
+            if not caps:
+                return False, "the rule table is not reached"
+            for st in caps:
+                vals = []
+                for op in firsts:
+                    if op.get("k") == "const":
+                        vals.append(op.get("v"))
+                    else:
+                        vals.append(st.get(op.get("l")))
+                if not any(v is True for v in vals):
+                    return False, "auth enabled, user=%s password=%s: no rule is violated (%s)" % (u, pw, vals)
+    return True, "table"
 
 
 def _returns_err(fn, path):
